@@ -299,6 +299,12 @@ func (w *PollWorker) Process(mesg *aio.Message) {
 		return
 	}
 
+	// the json literal null unmarshals into a nil pointer without an error
+	if data == nil {
+		mesg.Done(false, fmt.Errorf("invalid poll receiver data %s", mesg.Data))
+		return
+	}
+
 	// check if we have a connection
 	conn, ok := w.connections.get(data.Group, data.Id)
 	if !ok {
